@@ -104,11 +104,19 @@ func allocatableViewRules(p string) []Rule {
 // corev1.Toleration.ToleratesTaint (which knows about empty keys, Exists and effects) unless one already matched.
 func toleratesRules(p string) []Rule {
 	const tol = "(scheduling.Taints).Tolerates"
-	return []Rule{
-		ITER{ID: p + ".TOL1", Fn: tol, Loop: `+^\(phi\(-1\|\(phi↺ \+ 1\)\) \+ 1\) < len\(\$1\)$`, Gates: gates(
+	return []Rule{core.Custom{ID: p + ".TOL1", Kind: "ITER", Run: func(w *core.World, id string) []core.Result {
+		// combinator form: tolerates := lo.ContainsBy(tolerations, func(t) bool { return t.ToleratesTaint(NopLogger, &taint, true) })
+		if fn := w.Fn(tol); fn != nil {
+			if len(w.Sites(fn, regexp.MustCompile(`^call lo\.Find\[corev1\.Toleration\]\(\$1, closure:.*\)#1$`), true)) == 1 {
+				pred := "@arg:" + tol + `|^call lo\.Find\[corev1\.Toleration\]\(\$1, |1`
+				return core.InstrPresent(w, id, "ITER", pred, `^return \(\*corev1\.Toleration\)\.ToleratesTaint\(\$0, operator/logging\.NopLogger, \^\$0\[.*\], true\)$`, 1, "some toleration tolerates the taint (every toleration is put to ToleratesTaint until one matches)")
+			}
+		}
+		r := ITER{ID: id, Fn: tol, Loop: `+^\(phi\(-1\|\(phi↺ \+ 1\)\) \+ 1\) < len\(\$1\)$`, Gates: gates(
 			G(`+^phi\(false\|phi\(true\|\(\*corev1\.Toleration\)\.ToleratesTaint\(`, `instr:^call \(\*corev1\.Toleration\)\.ToleratesTaint\(\$1\[.*\], operator/logging\.NopLogger, \$0\[.*\], true\)$`),
-		), Note: "no toleration is skipped"},
-	}
+		), Note: "no toleration is skipped"}
+		return r.Check(w)
+	}}}
 }
 
 // usageBookkeepingRules: what a bound pod adds to its node's aggregates — requests go to the request maps and limits to
